@@ -11,7 +11,7 @@ from deeprob.spn.structure.cltree import BinaryCLT
 from deeprob.spn.algorithms.inference import likelihood, log_likelihood
 from deeprob.spn.utils.validity import check_spn
 
-FAMILIES = [('bern',), ('bern', 'cat'), ('bern', 'gauss'), ('cat', 'iso', 'unif'), ('bern', 'cat', 'gauss', 'unif', 'iso')]
+FAMILIES = [('bern',), ('bern', 'cat'), ('bern', 'gauss'), ('cat', 'iso', 'unif'), ('bern', 'cat', 'gauss', 'unif', 'iso'), ('catl',), ('bern', 'catl', 'gauss')]
 
 
 def iso_floor():
